@@ -200,6 +200,27 @@ def bounded_sequences(ctx, b):
             b.guard(("seq", a[:40], s), one, sample={"detected_before": a[:60], "string": s})
 
 
+def bounded_long_documents(ctx, b):
+    """long documents (hundreds of cues, far beyond 64 KiB for the XML formats): the marker that decides may stand at
+    the very end (DFXP's closing tag) or only at the start"""
+    pairs = [(SRTWriter, SRTReader), (WebVTTWriter, WebVTTReader), (DFXPWriter, DFXPReader), (SAMIWriter, SAMIReader),
+             (MicroDVDWriter, MicroDVDReader), (SCCWriter, SCCReader)]
+    from pycaption.dfxp.extras import LegacyDFXPWriter, SinglePositioningDFXPWriter
+    pairs += [(LegacyDFXPWriter, DFXPReader), (SinglePositioningDFXPWriter, DFXPReader)]
+    for n_cues in (700, 2500 if ctx.thorough else 1200):
+        cs = CaptionSet({"en-US": CaptionList([Caption((3 * j + 1) * 10 ** 6, (3 * j + 3) * 10 ** 6, [T(f"caption number {j} of a long programme")])
+                                               for j in range(n_cues)])})
+        for Wr, Rd in pairs:
+            def one(Wr=Wr, Rd=Rd, cs=cs, n_cues=n_cues):
+                doc = Wr().write(cs)
+                got = detect_format(doc)
+                if got is not Rd:
+                    return False, {"writer": Wr.__name__, "characters": len(doc), "detected_as": repr(got), "expected": Rd.__name__}
+                back = Rd().read(doc)
+                return sum(len(back.get_captions(l)) for l in back.get_languages()) == n_cues, {"writer": Wr.__name__, "cues_read": sum(len(back.get_captions(l)) for l in back.get_languages())}
+            b.guard(("long", Wr.__name__, n_cues), one, sample={"writer": Wr.__name__, "cues": n_cues})
+
+
 def bounded_first_frame(ctx, b):
     """a cue that starts and ends within the first 40 ms (one MicroDVD frame), alone and followed by another cue"""
     pairs = [(SRTWriter, SRTReader), (WebVTTWriter, WebVTTReader), (DFXPWriter, DFXPReader), (SAMIWriter, SAMIReader),
@@ -221,6 +242,8 @@ def bounded_first_frame(ctx, b):
 def run(ctx):
     P = ctx.prove
     ctx.ground("SUPPORTED_READERS/order", order_is_documented)
+    ctx.bounded("long_documents", "the output of the eight writers for 700 and 1200 (thorough: 2500) cues: detected as the writer's "
+                "format and read back with every cue", lambda b: bounded_long_documents(ctx, b))
     ctx.bounded("first_frame", "caption sets whose first cue lies within the first 40 ms, through the five text writers: "
                 "detected as the writer's format and read back", lambda b: bounded_first_frame(ctx, b))
     ctx.frame("detection_has_no_memory", detection_has_no_memory)
